@@ -509,9 +509,14 @@ impl<'a> Checker<'a> {
                         self.declare_pkg(name, *pos, Obj::Type(id));
                     }
                 }
-                Decl::Func { recv, name, pos, .. } => {
+                Decl::Func { recv, name, pos, sig, .. } => {
                     if recv.is_none() {
                         if name == "init" {
+                            // Go spec: init functions take no arguments and return nothing
+                            if !sig.params.is_empty() || sig.result.is_some() {
+                                self.err(*pos, "bad-init", "func init must have no arguments and no return values".into());
+                                continue;
+                            }
                             return self.unsup(*pos, "init-func");
                         }
                         self.idents.push((name.clone(), "func", pos.line));
@@ -624,6 +629,12 @@ impl<'a> Checker<'a> {
                     } else if name == "main" {
                         if !params.is_empty() || result.is_some() {
                             self.err(*pos, "bad-main", "func main must have no arguments and no return values".into());
+                        }
+                    } else if name == "init" {
+                        // Go spec: package-level init functions take nothing, return nothing (and
+                        // cannot be referred to; goml never emits an init of its own)
+                        if !params.is_empty() || result.is_some() {
+                            self.err(*pos, "bad-init", "func init must have no arguments and no return values".into());
                         }
                     }
                     self.funcs.push(FuncInfo {
